@@ -1978,6 +1978,11 @@ class _Linalg:
 
     @staticmethod
     def cross(a, b, dim=-1):
+        h = _Linalg.hooks.get("cross")
+        if h is not None:
+            r = h(a, b, dim)
+            if r is not None:
+                return r
         return cross(a, b, dim)
 
     @staticmethod
